@@ -130,7 +130,7 @@ func checkC01(c *Ctx) {
 }
 
 func checkC12(c *Ctx) {
-	c.Explanation = "Decides that a CRC failure costs exactly one frame: (R1) on the CRC-failure edge the single-frame decoder returns a non-RTCM message holding its whole input, which is the whole candidate frame of exactly L+6 bytes (exact-count rule); (R2) while the candidate is read the framer has no content-dependent exit and no push-back, so corruption inside payload or CRC (including new 0xD3 bytes) cannot move the frame boundary; the leader is untouched by assumption, so L is the same; (R3) the fetcher returns the decoder's message unchanged; (R4) the CRC gate compares all three bytes (a corrupted frame is not accepted) and the conservation rules of C02 hold, so the neighbours are delivered exactly as without the corruption."
+	c.Explanation = "Decides that a CRC failure costs exactly one frame: (R1) on the CRC-failure edge the single-frame decoder returns a non-RTCM message holding its whole input, which is the whole candidate frame of exactly L+6 bytes (exact-count rule); (R2) while the candidate is read the framer has no content-dependent exit and no push-back, so corruption inside payload or CRC (including new 0xD3 bytes) cannot move the frame boundary; the leader is untouched by assumption, so L is the same; (R3) the fetcher returns the decoder's message unchanged; (R4) the CRC gate compares all three bytes (a corrupted frame is not accepted) and the conservation rules of C02 hold, so the neighbours are delivered exactly as without the corruption; the five-byte leader helper rejects on leader content only (R2), and (R5) every call in the decoder that can change the handler's week state is dominated by the CRC-success edge, so the neighbours' reported times are untouched as well."
 	c.NotDecided = "that a corrupted frame's CRC really differs (probability 2^-24 of an undetected error is inherent to the CRC)."
 	f := newFraming(c, "C12-anchor")
 	if f == nil {
